@@ -199,7 +199,7 @@ def _limits():
     resource.setrlimit(resource.RLIMIT_AS, (4 << 30, 4 << 30))
 
 
-def run_both(prop, cases, impl_argv, model_argv, tag='main', timeout=600):
+def run_both(prop, cases, impl_argv, model_argv, tag='main', timeout=600, supervise=None):
     """cases: list of case lines. Runs impl and model on the same shard files in parallel.
     impl_argv/model_argv: functions shard_path -> argv. Returns (impl_lines, model_lines, info)."""
     wd = os.path.join(WORK, prop, tag)
@@ -230,15 +230,56 @@ def run_both(prop, cases, impl_argv, model_argv, tag='main', timeout=600):
         if rc != 0:
             info['crashes'].append((k, side, rc))
     res = {'impl': [None] * len(cases), 'model': [None] * len(cases)}
+    info['supervised'] = []
     for k in range(n):
         for side in ('impl', 'model'):
             lines = open(os.path.join(wd, 'shard%02d.%s.out' % (k, side)), errors='replace').read().split('\n')
             lines = [l for l in lines if l]
+            if side == 'impl' and len(lines) < len(shards[k]) and supervise is not None:
+                # the harness hung or died: re-run this shard case by case under supervision
+                path = os.path.join(wd, 'shard%02d.cases' % k)
+                lines = run_supervised(impl_argv(path), len(shards[k]), supervise)
+                info['supervised'].append(k)
+                info['crashes'] = [c for c in info['crashes'] if not (c[0] == k and c[1] == 'impl')]
             for j, l in enumerate(lines):
                 idx = j * n + k
                 if idx < len(cases):
                     res[side][idx] = l
     return res['impl'], res['model'], info
+
+
+def run_supervised(argv, ncases, per_case_timeout):
+    """Runs a harness that prints one flushed line per case; a case that makes no progress for
+    per_case_timeout seconds (or kills the process) is recorded as '(DIVERGED)' / '(CRASHED rc)'
+    and the run resumes after it with --from. Returns the list of lines."""
+    import select
+    lines = []
+    while len(lines) < ncases:
+        p = subprocess.Popen(argv + ['--from', str(len(lines))], stdout=subprocess.PIPE, stderr=subprocess.DEVNULL,
+                             env=ENV, preexec_fn=_limits)
+        buf = b''
+        stalled = False
+        while len(lines) < ncases:
+            r, _, _ = select.select([p.stdout], [], [], per_case_timeout)
+            if not r:
+                stalled = True
+                break
+            chunk = os.read(p.stdout.fileno(), 1 << 16)
+            if not chunk:
+                break
+            buf += chunk
+            while b'\n' in buf:
+                ln, buf = buf.split(b'\n', 1)
+                if ln.strip():
+                    lines.append(ln.decode('utf-8', 'replace'))
+        if stalled:
+            p.kill(); p.wait()
+            lines.append('(DIVERGED)')
+        else:
+            p.wait()
+            if len(lines) < ncases:
+                lines.append('(CRASHED %s)' % p.returncode)
+    return lines[:ncases]
 
 
 # ----------------------------------------------------------------------------------------
